@@ -1640,7 +1640,7 @@ func (n *normalizer) paramSplitRound() bool {
 					if !ok {
 						return true
 					}
-					id, ok := se.X.(*ast.Ident)
+					id, ok := ast.Unparen(se.X).(*ast.Ident) // (p).f, as a substituted expression writes it
 					if !ok || n.info.Uses[id] != types.Object(pobj) {
 						return true
 					}
@@ -1786,9 +1786,23 @@ func (n *normalizer) paramSplitRound() bool {
 						} else {
 							good = false
 						}
-					case *ast.UnaryExpr:
-						lit, isLit := ast.Unparen(x.X).(*ast.CompositeLit)
-						if !ptrMode || x.Op != token.AND || !isLit {
+					case *ast.UnaryExpr, *ast.CompositeLit:
+						var lit *ast.CompositeLit
+						isLit := false
+						if ue, isU := x.(*ast.UnaryExpr); isU {
+							// &T{…} for a pointer parameter
+							lit, isLit = ast.Unparen(ue.X).(*ast.CompositeLit)
+							if !ptrMode || ue.Op != token.AND {
+								isLit = false
+							}
+						} else {
+							// T{…} for a value parameter
+							lit, isLit = x.(*ast.CompositeLit)
+							if ptrMode {
+								isLit = false
+							}
+						}
+						if !isLit {
 							good = false
 							break
 						}
@@ -2476,9 +2490,25 @@ func (n *normalizer) copyPropRound() bool {
 				for {
 					switch y := ast.Unparen(e).(type) {
 					case *ast.SelectorExpr:
+						// x.p.f with p a pointer writes what p points to, not x
+						if t := n.info.TypeOf(y.X); t != nil {
+							if _, isPtr := t.Underlying().(*types.Pointer); isPtr {
+								if _, isID := ast.Unparen(y.X).(*ast.Ident); !isID {
+									return nil
+								}
+							}
+						}
 						e = y.X
 						continue
 					case *ast.IndexExpr:
+						if t := n.info.TypeOf(y.X); t != nil {
+							switch t.Underlying().(type) {
+							case *types.Slice, *types.Map, *types.Pointer:
+								if _, isID := ast.Unparen(y.X).(*ast.Ident); !isID {
+									return nil // an element of what a field refers to
+								}
+							}
+						}
 						e = y.X
 						continue
 					case *ast.Ident:
